@@ -239,7 +239,21 @@ fn judge_to_f64(ctx: &mut Ctx, case: &Case, t: &Dec) {
                 (Some(g), Some(gr)) => (g, gr),
                 _ => { ctx.fail("to-float/none", case, format!("to_f64 of {} returned None", t.tok())); return; }
             };
-            ctx.check(g.to_bits() == gr.to_bits(), "to-float/value-vs-ref", case, || format!("value gives {:e}, reference gives {:e}", g, gr));
+            if g.to_bits() != gr.to_bits() {
+                // value and reference disagree: judge the reference's answer by the same clauses (below, once) by
+                // treating the pair as two results; identical answers are not required by the statement
+                ctx.note("to_f64-value-and-reference-differ");
+                judge_float_result(ctx, case, t, gr);
+            }
+            judge_float_result(ctx, case, t, g);
+        }
+    }
+}
+
+fn judge_float_result(ctx: &mut Ctx, case: &Case, t: &Dec, g: f64) {
+    use std::cmp::Ordering::*;
+    {
+        {
             if t.n.is_zero() {
                 ctx.check(g == 0.0, "to-float/zero", case, || format!("to_f64 of zero = {:e}", g));
                 return;
